@@ -21,6 +21,7 @@ type Clause struct {
 	Ord   int    // cut: ordinal of such block
 	Line  int
 	Name  string // optional label
+	Lhs    ast.Expr   // ghostset: target gf_x(obj)
 	Frames []ast.Expr // cut: slice ranges that bound what the section wrote
 }
 
@@ -72,6 +73,8 @@ type Spec struct {
 	Pures   map[string]*PureFunc
 	Locks   []*LockInv
 	Fields  map[string]string // "Type.field" -> class (immutable, atomic, config, racy, monotone)
+	Axioms  []*Clause // assumed facts about package-level state (listed as assumptions)
+	Observes map[string]string // "Type.field" -> ghost flag set when the field is read as true
 	Lemmas  []*FuncSpec
 	File    string
 	Trusted []string
@@ -80,7 +83,7 @@ type Spec struct {
 var clauseKw = map[string]bool{
 	"pure": true, "func": true, "extern": true, "iface": true, "lockinv": true, "property": true,
 	"case": true, "requires": true, "ensures": true, "modifies": true, "loop": true, "cut": true,
-	"inline": true, "trusted": true, "field": true, "lemma": true, "guards": true, "invariant": true,
+	"inline": true, "trusted": true, "field": true, "lemma": true, "guards": true, "invariant": true, "observe": true, "ghostset": true, "axiom": true,
 	"stable": true, "assert": true, "params": true, "ghost": true,
 }
 
@@ -90,7 +93,7 @@ func ParseSpec(path string) (*Spec, error) {
 	if err != nil {
 		return nil, err
 	}
-	sp := &Spec{Funcs: map[string]*FuncSpec{}, Pures: map[string]*PureFunc{}, Fields: map[string]string{}, File: path}
+	sp := &Spec{Funcs: map[string]*FuncSpec{}, Pures: map[string]*PureFunc{}, Fields: map[string]string{}, Observes: map[string]string{}, File: path}
 	type rawClause struct {
 		text string
 		line int
@@ -217,6 +220,34 @@ func ParseSpec(path string) (*Spec, error) {
 					curLock.Guards = append(curLock.Guards, strings.TrimSpace(g))
 				}
 			}
+		case "axiom":
+			e, err := parseExpr(rest, rc.line)
+			if err != nil {
+				return nil, err
+			}
+			sp.Axioms = append(sp.Axioms, &Clause{Kind: "axiom", Text: rest, Expr: e, Line: rc.line})
+			cur, curCase, curLock = nil, nil, nil
+		case "observe":
+			// observe Type.field as flag
+			fs := strings.Fields(rest)
+			if len(fs) == 3 && fs[1] == "as" {
+				sp.Observes[fs[0]] = fs[2]
+			}
+		case "ghostset":
+			// ghostset gf_name(obj) = expr
+			k := strings.Index(rest, " = ")
+			if k < 0 {
+				return nil, fmt.Errorf("%s:%d: ghostset needs lhs = rhs", path, rc.line)
+			}
+			le, err := parseExpr(strings.TrimSpace(rest[:k]), rc.line)
+			if err != nil {
+				return nil, err
+			}
+			re, err := parseExpr(strings.TrimSpace(rest[k+3:]), rc.line)
+			if err != nil {
+				return nil, err
+			}
+			addClause(&Clause{Kind: "ghostset", Text: rest, Expr: re, Lhs: le, Line: rc.line})
 		case "field":
 			// field Type.f: class
 			parts := strings.SplitN(rest, ":", 2)
